@@ -1,3 +1,93 @@
-(* placeholder until the echo proofs are written *)
-From Coq Require Import ZArith.
-Theorem C03_placeholder : True. Proof. exact I. Qed.
+(* C03 - a response is accepted only if it answers the request that was actually sent.  Statements only. *)
+From Coq Require Import ZArith List Bool String.
+From UDS Require Import Lib.Bytes Lib.ErrM Model.Message Model.Client Model.Services Model.Helpers Model.MemLoc
+  Model.Svc_Simple Model.Svc_Memory Model.Svc_Did Model.Svc_File Model.Svc_Dtc Model.History
+  Proofs.C05_lemmas Proofs.Client_lemmas Proofs.C03_lemmas.
+Import ListNotations.
+Open Scope Z_scope.
+
+(* every byte string as reply, any schedule: a response object is handed on only if its service identifier is the
+   request's (+0x40), it is positive and valid *)
+Theorem C03_service_id : forall cfg st rq to now s r sv,
+  q_svc rq = Some sv ->
+  wl_res (send_request cfg st rq to now s) = COk (Some r) ->
+  exists rs, p_svc r = Some rs /\ s_sid rs = s_sid sv /\ p_positive r = true /\ p_valid r = true.
+Proof. exact send_request_accepts. Qed.
+Print Assumptions C03_service_id.
+
+(* a client method returns a response only when send_request accepted it AND the service's decoding + echo
+   comparison succeeded on it *)
+Theorem C03_accept_implies_checked : forall cfg st mk interp post now s r sd rq,
+  mk = inr rq ->
+  (let '(res, _, _, _, _) := single_request cfg st mk interp post now s in res = COk (Some (r, sd))) ->
+  interp r = inr sd /\ wl_res (send_request cfg st rq (-1) now s) = COk (Some r).
+Proof. exact single_request_accepts. Qed.
+Print Assumptions C03_accept_implies_checked.
+
+(* success of each service's check => the echoed fields of the response are the request's, for ALL response bytes *)
+Theorem C03_session : forall cfg session r sd, dsc_interpret cfg session r = inr sd -> exists rest, p_data r = session :: rest.
+Proof. exact dsc_echo. Qed.
+Theorem C03_security_level : forall k level r sd, sa_interpret k level r = inr sd ->
+  exists lv rest, normalize_level k level = inr lv /\ p_data r = lv :: rest.
+Proof. exact sa_echo. Qed.
+Theorem C03_tester_present : forall r sd, tp_interpret r = inr sd -> exists rest, p_data r = 0 :: rest.
+Proof. exact tp_echo. Qed.
+Theorem C03_reset_type : forall t r sd, er_interpret t r = inr sd -> exists rest, p_data r = t :: rest.
+Proof. exact er_echo. Qed.
+Theorem C03_routine : forall rid ct r sd, rc_interpret rid ct r = inr sd ->
+  exists i1 i0 rec, p_data r = ct :: i1 :: i0 :: rec /\ i1 * 256 + i0 = rid.
+Proof. exact rc_echo. Qed.
+Theorem C03_access_type : forall a r sd, atp_interpret a r = inr sd -> exists rest, p_data r = a :: rest.
+Proof. exact atp_echo. Qed.
+Theorem C03_subfunction_echo : forall x r sd, echo1_interpret x r = inr sd -> exists rest, p_data r = x :: rest.
+Proof. exact echo1_echo. Qed.
+Theorem C03_block_sequence_counter : forall seq r sd, td_interpret seq r = inr sd -> exists rest, p_data r = seq :: rest.
+Proof. exact td_echo. Qed.
+Theorem C03_written_did : forall did r sd, wdbi_interpret did r = inr sd ->
+  exists d1 d0 rest, p_data r = d1 :: d0 :: rest /\ d1 * 256 + d0 = did.
+Proof. exact wdbi_echo. Qed.
+Theorem C03_memory_echo : forall cfg a s af sf r sd, wmba_interpret cfg a s af sf r = inr sd ->
+  exists m ab sb b, client_memloc cfg a s af sf = inr m /\ addr_bytes m = inr ab /\ size_bytes m = inr sb /\
+    alfid_byte (ml_alfid m) = inr b /\
+    nth 0 (p_data r) 0 = b /\
+    be_dec (firstn (List.length ab) (skipn 1 (p_data r))) = a /\
+    be_dec (firstn (List.length sb) (skipn (1 + List.length ab) (p_data r))) = s /\
+    (1 + List.length ab + List.length sb <= List.length (p_data r))%nat.
+Proof. exact wmba_echo_checked. Qed.
+Theorem C03_dynamic_did : forall sub did must r sd, dddi_interpret sub did must r = inr sd ->
+  exists rest, p_data r = sub :: rest /\
+    match did with
+    | Some d => (exists d1 d0 tl, rest = d1 :: d0 :: tl /\ d1 * 256 + d0 = d) \/ (must = false /\ (List.length rest < 2)%nat)
+    | None => True
+    end.
+Proof. exact dddi_echo. Qed.
+Theorem C03_io_control : forall cfg did cp r sd, io_interpret cfg did cp r = inr sd ->
+  be_dec (firstn 2 (p_data r)) = did /\
+  match cp with Some c => nth 2 (p_data r) 0 = c /\ (3 <= List.length (p_data r))%nat | None => (2 <= List.length (p_data r))%nat end.
+Proof. exact io_echo. Qed.
+Theorem C03_file_transfer : forall cfg moop d r sd, rft_interpret cfg moop d r = inr sd ->
+  nth 0 sd (-1) = moop /\ (exists rest, p_data r = moop :: rest) /\
+  (((moop =? 1) || (moop =? 3) || (moop =? 4) || (moop =? 6) = true) ->
+     nth 2 sd (-1) = match d with Some (c, e) => 16 * c + e | None => 0 end).
+Proof. exact rft_echo. Qed.
+Theorem C03_authentication_task : forall task r sd, auth_interpret task r = inr sd -> exists retv rest, p_data r = task :: retv :: rest.
+Proof. exact auth_echo. Qed.
+Theorem C03_read_dids : forall cfg l r vals, rdbi_interpret cfg l r = inr vals ->
+  (forall k v, In (k, v) vals -> In k l) /\ (forall k, In k l -> exists v, In (k, v) vals).
+Proof. exact rdbi_echo. Qed.
+Theorem C03_dtc_subfunction : forall cfg sub a r sd, rdtci_interpret cfg sub a r = inr sd ->
+  exists x, rdtci_decode cfg sub a (p_data r) = inr x /\ r_echo x = sub /\ rdtci_client_checks sub a x = inr tt /\
+            (exists rest, p_data r = sub :: rest).
+Proof. exact rdtci_echo. Qed.
+Theorem C03_dtc_memory_selection : forall sub a x ms, rdtci_client_checks sub a x = inr tt ->
+  (sub = 23 \/ sub = 24 \/ sub = 25) -> da_memsel a = Some ms -> r_memsel x = ms.
+Proof. exact rdtci_checks_memsel. Qed.
+Theorem C03_dtc_functional_group : forall sub a x g, rdtci_client_checks sub a x = inr tt ->
+  (sub = 85 \/ sub = 66) -> da_fgid a = Some g -> r_fgid x = g.
+Proof. exact rdtci_checks_fgid. Qed.
+Theorem C03_dtc_snapshot_dtc : forall sub a x one want, rdtci_client_checks sub a x = inr tt ->
+  (sub = 4 \/ sub = 24) -> r_dtcs x = [one] -> da_dtc a = Some want -> d_id one = want.
+Proof. exact rdtci_checks_snapshot_dtc. Qed.
+Print Assumptions C03_memory_echo.
+Print Assumptions C03_file_transfer.
+Print Assumptions C03_dtc_subfunction.
